@@ -245,26 +245,39 @@ fn is_decimal_digit(v: &Value<'_>, digit: u8) -> bool {
     }
 }
 
-/// Entry point is the (private) parameter list parser `arguments`, which is what
-/// `parse` calls after the header.  (`parse` itself on these inputs does not
-/// finish: the header loops are unwound 12 x 12 x 24 times, see README.)
+/// Runs the (private) parameter list parser `arguments`, which is what `parse`
+/// calls right after the header, on a concrete list.
 ///
-/// Bound: concrete inputs.  The longest loop is the parameter loop of
-/// `arguments` (10 iterations for 11 parameters); every other loop (white space,
-/// digits, stubbed utf-8 check) runs at most twice; unwind 12.
+/// Why not `parse`: CBMC's symbolic execution cannot constant-fold the niche
+/// encoded discriminant of `ParseResult<()>` (`header_separator`,
+/// `argument_separator`), so every `match` on such a result forks even on
+/// concrete input, and the `Ok` arm continues with an unconstrained slice.  In
+/// `parse` that happens at the first `optional(header_separator)`, after which
+/// the whole header / parameter machinery is explored for arbitrary data up to
+/// the unwinding bound (> 15 min, measured).  In `arguments` it only happens at
+/// the separator AFTER the last parameter, which costs one spurious exploration
+/// of `argument`.
+fn run_arguments<'a>(
+    input: &'a [u8], args: &mut Vec<Value<'a>, MAX_ARGS>,
+) -> ParseResult<'a, ()> {
+    let mut parser = arguments(args);
+    parser(input)
+}
+
+/// Exactly MAX_ARGS (10) parameters: accepted, all of them delivered in order,
+/// the terminator is left for the caller.
+///
+/// Bound: one concrete input.  The parameter loop of `arguments` jumps back 9
+/// times (parameters 2..=10), the 10th pass leaves at the separator; every other
+/// loop (white space, digits, stubbed utf-8 check) runs at most once on this
+/// input; unwind 11.
 #[kani::proof]
-#[kani::unwind(12)]
+#[kani::unwind(11)]
 #[kani::stub(core::str::from_utf8, ascii_only_from_utf8)]
-fn k_arguments_max() {
-    // exactly MAX_ARGS (10) parameters: accepted, all of them delivered in order,
-    // the terminator is left for the caller
+fn k_arguments_max_10() {
     let input: &[u8] = b"1,2,3,4,5,6,7,8,9,0\n";
     let mut args: Vec<Value<'_>, MAX_ARGS> = Vec::new();
-    let result = {
-        let mut parser = arguments(&mut args);
-        parser(input)
-    };
-    match result {
+    match run_arguments(input, &mut args) {
         Ok((rest, ())) => assert!(same_slice(rest, &input[input.len() - 1..])),
         Err(_) => panic!("10 parameters must be accepted"),
     }
@@ -280,16 +293,22 @@ fn k_arguments_max() {
     assert!(is_decimal_digit(&args[7], b'8'));
     assert!(is_decimal_digit(&args[8], b'9'));
     assert!(is_decimal_digit(&args[9], b'0'));
+}
 
-    // MAX_ARGS + 1 parameters: an error (not Incomplete), no panic, and no
-    // silent truncation to the first 10
+/// MAX_ARGS + 1 parameters: an error (not Incomplete), no panic, and no silent
+/// truncation to the first 10.
+///
+/// Bound: one concrete input.  9 jumps back, the 10th pass (parameter 11) has to
+/// return the error; a version that wrongly keeps going needs a 10th jump back
+/// and an 11th pass to return `Ok`, which unwind 11 still covers (so such a
+/// version is reported as a failed assertion, not as an unwinding failure).
+#[kani::proof]
+#[kani::unwind(11)]
+#[kani::stub(core::str::from_utf8, ascii_only_from_utf8)]
+fn k_arguments_max_11() {
     let input: &[u8] = b"1,2,3,4,5,6,7,8,9,0,1\n";
     let mut args: Vec<Value<'_>, MAX_ARGS> = Vec::new();
-    let result = {
-        let mut parser = arguments(&mut args);
-        parser(input)
-    };
-    match result {
+    match run_arguments(input, &mut args) {
         Ok(_) => panic!("11 parameters accepted (silently truncated?)"),
         Err(ParseError::Incomplete) => panic!("11 parameters reported as Incomplete"),
         Err(_) => {}
